@@ -18,6 +18,8 @@ void run_deque(Sel &, bool thorough);      // c16_src_deque.cpp
 void run_assoc(Sel &, bool thorough);      // c16_src_assoc.cpp
 void run_static(Sel &, bool thorough);     // c16_src_static.cpp
 void run_ranges(Sel &, bool thorough);     // c16_src_ranges.cpp
+void run_extension(Sel &, bool thorough);  // c16_ext.cpp (observed-only kinds)
+void run_fold_tables(bool thorough);        // c16_ext.cpp
 
 namespace
 {
@@ -177,6 +179,8 @@ int main(int argc, char **argv)
   }
   if (on("strings")) c16::string_algos(thorough);
   if (on("containers")) c16::run_containers(sel, thorough);
+  if (on("extension")) c16::run_extension(sel, thorough);
+  if (on("foldtables")) c16::run_fold_tables(thorough);
   vj::close();
   std::printf("records %ld\n", c16::NREC());
   return 0;
